@@ -194,3 +194,70 @@ pub proof fn lemma_first_coin(funds: Seq<Coin>, denom: Seq<char>)
     }
 }
 } // verus!
+verus! {
+// ------------------------------------------------------------------ configuration validation (C14)
+/// BIP-173 human-readable part as accepted and normalised by `validate_address_prefix`
+pub open spec fn valid_prefix(p: Seq<char>) -> bool {
+    &&& 1 <= p.len() <= 83
+    &&& forall|i: int| 0 <= i < p.len() ==> 33 <= (#[trigger] p[i]) as u32 <= 126 && !(65 <= p[i] as u32 <= 90)
+}
+pub open spec fn no_upper(p: Seq<char>) -> bool {
+    forall|i: int| 0 <= i < p.len() ==> !(65 <= (#[trigger] p[i]) as u32 <= 90)
+}
+pub open spec fn all_valid_under(addrs: Seq<String>, prefix: Seq<char>) -> bool {
+    forall|i: int| 0 <= i < addrs.len() ==> bech32_hrp((#[trigger] addrs[i])@) == Some(prefix)
+}
+pub open spec fn pairwise_distinct(addrs: Seq<String>) -> bool {
+    forall|i: int, j: int| 0 <= i < j < addrs.len() ==> (#[trigger] addrs[i])@ != (#[trigger] addrs[j])@
+}
+pub open spec fn same_strings(out: Seq<Addr>, addrs: Seq<String>) -> bool {
+    out.len() == addrs.len() && forall|i: int| 0 <= i < addrs.len() ==> (#[trigger] out[i]).0@ == addrs[i]@
+}
+} // verus!
+verus! {
+// typed views (they fix the element type of locals declared with an inferred type)
+pub open spec fn addr_seq(v: Vec<Addr>) -> Seq<Addr> { v@ }
+pub open spec fn string_set(s: std::collections::HashSet<String>) -> Set<String> { s@ }
+} // verus!
+verus! {
+// ------------------------------------------------------------------ validated configuration sections (C14)
+pub use crate::types::{UnsafeNativeChainConfig, UnsafeProtocolChainConfig, UnsafeProtocolFeeConfig};
+pub open spec fn denom_ok(d: Seq<char>) -> bool {
+    str_byte_len(d) > 3 && forall|i: int| 0 <= i < d.len() ==> is_ascii_alpha(#[trigger] d[i])
+}
+pub open spec fn ibc_denom_ok(d: Seq<char>) -> bool {
+    d.len() >= 4 && d.take(4) == "ibc/"@ && str_byte_len(d.skip(4)) == 64
+}
+pub open spec fn channel_ok(c: Seq<char>) -> bool {
+    c.len() >= 9 && c.take(8) == "channel-"@ && all_digits(c.skip(8))
+}
+pub open spec fn opt_addr_validated(input: Option<String>, out: Option<Addr>, prefix: Seq<char>) -> bool {
+    match input {
+        None => out is None,
+        Some(a) => out is Some && out->Some_0.0@ == a@ && bech32_hrp(a@) == Some(prefix),
+    }
+}
+/// a native-chain section as accepted: well-formed, and equal to the input field by field
+pub open spec fn native_validated(u: UnsafeNativeChainConfig, r: NativeChainConfig) -> bool {
+    &&& valid_prefix(r.account_address_prefix@) && r.account_address_prefix@ == u.account_address_prefix@
+    &&& valid_prefix(r.validator_address_prefix@)
+    &&& r.token_denom@ == u.token_denom@ && denom_ok(r.token_denom@)
+    &&& all_valid_under(u.validators@, r.validator_address_prefix@) && pairwise_distinct(u.validators@)
+    &&& same_strings(r.validators@, u.validators@)
+    &&& r.unbonding_period == u.unbonding_period
+    &&& r.staker_address.0@ == u.staker_address@ && bech32_hrp(u.staker_address@) == Some(r.account_address_prefix@)
+    &&& r.reward_collector_address.0@ == u.reward_collector_address@ && bech32_hrp(u.reward_collector_address@) == Some(r.account_address_prefix@)
+}
+pub open spec fn protocol_validated(u: UnsafeProtocolChainConfig, r: ProtocolChainConfig) -> bool {
+    &&& valid_prefix(r.account_address_prefix@)
+    &&& u.oracle_address is Some ==> r.account_address_prefix@ == u.account_address_prefix@
+    &&& r.ibc_token_denom@ == u.ibc_token_denom@ && ibc_denom_ok(r.ibc_token_denom@)
+    &&& r.ibc_channel_id@ == u.ibc_channel_id@
+    &&& r.minimum_liquid_stake_amount == u.minimum_liquid_stake_amount
+    &&& opt_addr_validated(u.oracle_address, r.oracle_address, r.account_address_prefix@)
+}
+pub open spec fn fee_validated(u: UnsafeProtocolFeeConfig, p: ProtocolChainConfig, r: ProtocolFeeConfig) -> bool {
+    &&& r.dao_treasury_fee == u.dao_treasury_fee
+    &&& opt_addr_validated(u.treasury_address, r.treasury_address, p.account_address_prefix@)
+}
+} // verus!
